@@ -98,8 +98,7 @@ func registerVerifAPI(e *Engine) {
 		return nil
 	})
 	v("Observe", func(in *Interp, fr *frame, fn *ssa.Function, a []Val) Val {
-		iv := a[1].(Iface)
-		in.observes = append(in.observes, observe{a[0].(Str).S, iv.V})
+		in.observes = append(in.observes, observe{a[0].(Str).S, a[1].(Iface)})
 		return nil
 	})
 	v("Quiesce", func(in *Interp, fr *frame, fn *ssa.Function, a []Val) Val {
